@@ -411,6 +411,20 @@ pub fn api_ops() -> Vec<AOp> {
     ops.push(AOp::BoundaryOpen(fine, Some(2)));
     ops.push(AOp::Authalic(true, 0.9));
     ops.push(AOp::Authalic(false, 0.9));
+    // a valid id, then the same id with a stray low bit (must stay rejected whatever was validated before)
+    ops.push(AOp::Parent(seamcell));
+    ops.push(AOp::ParentTo(seamcell | 1, 3));
+    ops.push(AOp::ChildrenTo(seamcell | 1, 3));
+    // ids that share their top six bits but read them differently: base cell k (face k) and the first
+    // quintant-level id with the same leading bits (5 * face + quintant code = k)
+    for k in [0u64, 7] {
+        let base = (k << 58) | (1u64 << 57);
+        let quint = (k << 58) | (1u64 << 56);
+        ops.push(AOp::ParentTo(base, 0));
+        ops.push(AOp::Parent(quint));
+        ops.push(AOp::Deser(base));
+        ops.push(AOp::Deser(quint));
+    }
     ops.push(AOp::Children(seamcell));
     ops.push(AOp::Children(0));
     ops.push(AOp::Parent(fine));
